@@ -99,8 +99,10 @@ func genC20(seed uint64, tier string, idx int) (p *Plan) {
 		for i := 0; i < n; i++ {
 			cmd := termCmds[g.r.intn(len(termCmds))]
 			var raw []byte
-			if g.r.chance(35) {
+			if g.r.chance(45) {
 				body := g.wellFormedBody(cmd, v19, bcd)
+				// custom bodies stay well-formed: the property speaks of frames whose body parses with the
+				// matching message type; the reply to a body the type rejects is outside its domain
 				raw = t.CreateCommandData(consts.JT808CommandType(cmd), body)
 			} else {
 				raw = t.CreateDefaultCommandData(consts.JT808CommandType(cmd))
@@ -213,7 +215,7 @@ func checkC20(r *Result) []Violation {
 }
 
 func init() {
-	register(&propDef{ID: "C20", Gen: genC20, Enum: enumC20, Check: checkC20, Foreign: foreignCrash,
+	register(&propDef{ID: "C20", Gen: genC20, Enum: enumC20, Check: withCrashRule("C20", checkC20),
 		Interesting: func(r *Result) bool {
 			n := 0
 			for _, e := range r.Hist {
